@@ -31,7 +31,9 @@ BUDGET_S = {'quick': 40, 'thorough': 600}
 FLOORS = {'quick': {'tasks': 530, 'must_remove_checked': 5500, 'must_keep_checked': 14000,
                     'foreign_files_checked': 8000, 'strategy_directory_walk': 70, 'strategy_bulk_delete': 100,
                     'strategy_tile_walk': 330},
-          'thorough': {}}
+          'thorough': {'tasks': 10000, 'must_remove_checked': 100000, 'must_keep_checked': 270000,
+                       'foreign_files_checked': 160000, 'strategy_directory_walk': 1350,
+                       'strategy_bulk_delete': 1750, 'strategy_tile_walk': 6600}}
 RULE = ("case = one cleanup task: backend (file x 6 layouts, sqlite, mbtiles +-timestamps, geopackage +-levels, "
         "compact v1/v2) populated at 3-5 levels with <=60 tiles around the coverage, timestamps T+{-1e6,-3600,-2,"
         "+2,+3600}, foreign files next to it; mapproxy.yaml + seed.yaml (levels list/range/from/to/all, "
@@ -1175,6 +1177,29 @@ def _execute(run, case, d):
 
 # ---- cases -----------------------------------------------------------------------------------------------------
 
+class _AfterFork(object):
+    pass
+
+
+_AFTER_FORK = _AfterFork()
+
+
+def _die_with_parent(_obj):
+    try:
+        import ctypes
+        import signal
+        ctypes.CDLL(None, use_errno=True).prctl(1, signal.SIGKILL)      # PR_SET_PDEATHSIG
+    except Exception:
+        pass
+
+
+def setup_shard(run):
+    # the cleanup workers are multiprocessing children blocked on a queue: make sure they do not outlive a
+    # shard that is killed by the watchdog
+    from multiprocessing import util
+    util.register_after_fork(_AFTER_FORK, _die_with_parent)
+
+
 def backend_configs():
     cfgs = [('file', lay) for lay in FILE_LAYOUTS]
     cfgs += [(b, None) for b in OTHER_BACKENDS]
@@ -1197,7 +1222,7 @@ def gen_cases(run):
                     force['levels_conf'] = [1, 2, 10]
                 yield {'i': i, 'backend': b, 'layout': lay, 'force': force}
                 i += 1
-    n = run.pick(100, 3000)
+    n = run.pick(100, 2000)
     for r in range(n):
         for b, lay in cfgs:
             yield {'i': i, 'backend': b, 'layout': lay}
